@@ -317,6 +317,16 @@ fn nested_too_deeply(line: &str) -> bool {
             '"' => in_string = !in_string,
             _ if in_string => {}
             ';' => break,
+            // `//` comments run to the end of the line, `/* */` comments to their closer
+            '/' if chars.get(i) == Some(&'/') => break,
+            '/' if chars.get(i) == Some(&'*') => {
+                i += 1;
+                while i < chars.len() && !(chars[i] == '*' && chars.get(i + 1) == Some(&'/')) {
+                    i += 1;
+                }
+                i += 2;
+                run = 0;
+            }
             '(' => {
                 depth += 1;
                 if depth > MAX_NESTING {
